@@ -200,3 +200,27 @@ Example C09_acceptable_example :
   toy_handler AddPreChain [[x09]] winX 0 [x04; x08] = Rejected 400 /\
   toy_handler_prefix AddPreChain [[x09]] winX 0 [x04; x08] = Rejected 500.
 Proof. split; [exact ex_acceptable|]. vm_compute. repeat split; reflexivity. Qed.
+
+(* The deduplication identity (computeCacheHash's preimage; the harness ties [dedup_key] to the real
+   function through its cachekey lines): two precertificate entries with different issuer key hashes
+   never share it, however equal their TBSCertificates are, so "the same precertificate under a re-keyed
+   CA" is a second entry and gets its own leaf. The preimage statement needs no assumption on the
+   hash; the key statement has collision-freeness as an explicit premise (met, e.g., by the identity,
+   C09_dedup_example). *)
+Theorem C09_dedup_preimage_separates_issuers : forall cert1 cert2 ikh1 ikh2,
+  length ikh1 = length ikh2 ->
+  dedup_preimage cert1 true ikh1 = dedup_preimage cert2 true ikh2 -> ikh1 = ikh2.
+Proof. exact dedup_preimage_ikh. Qed.
+Print Assumptions C09_dedup_preimage_separates_issuers.
+
+Theorem C09_dedup_key_separates_issuers : forall (sha : bytes -> bytes) cert1 cert2 ikh1 ikh2,
+  (forall a b, sha a = sha b -> a = b) ->
+  length ikh1 = length ikh2 -> ikh1 <> ikh2 ->
+  dedup_key sha cert1 true ikh1 <> dedup_key sha cert2 true ikh2.
+Proof. exact dedup_key_separates_issuers. Qed.
+Print Assumptions C09_dedup_key_separates_issuers.
+
+Example C09_dedup_example :
+  (forall a b : bytes, (fun x => x) a = (fun x => x) b -> a = b) /\
+  dedup_key (fun x => x) [x30; x31] true [x01; x02] <> dedup_key (fun x => x) [x30; x31] true [x01; x03].
+Proof. split; [auto|]. vm_compute. discriminate. Qed.
